@@ -490,9 +490,9 @@ theorem declaredNode_meets_spec (d : DefaultsCfg) (n : NodeCfg) (h : NicKeysOk n
   constructor
   · unfold specNode
     cases hk : n.kind <;> simp [declaredNode, hk, C20_nics_by_key n.nics h]
-  · have : (specNode d n).software = specSoftware d (n.power.getD .on) n.kind n := by unfold specNode; rfl
+  · have : (specNode d n).software = (specSoftware d (n.power.getD .on) n.kind n).map (declaredOuter n) := by unfold specNode; rfl
     rw [this]
-    exact C20_software_meets_spec d _ _ n
+    exact (C20_software_meets_spec d _ _ n).map _
 
 theorem wiring_equiv (links : List LinkCfg) (a b : NodeInv) (h : NodeEquiv a b) :
     NodeEquiv (declaredWiring links a) (declaredWiring links b) := by
